@@ -812,6 +812,9 @@ func (w *wInterp) stmt(s ast.Stmt) wOutcome {
 		}
 		return wOutcome{kind: "return", err: isErr, vals: vals}
 	default:
+		if emptyDefer(s) {
+			return wOutcome{}
+		}
 		w.bad("statement %T", s)
 	}
 	return wOutcome{}
